@@ -861,8 +861,9 @@ def _strategies(family):
         mkeys = st.one_of(st.integers(0, 3), st.integers(0, 3), ukeys)
         return cfg, st.one_of(st.tuples(st.just("set"), ns, mkeys, vals).map(list), st.tuples(st.just("set"), ns, mkeys, vals).map(list),
                               st.tuples(st.just("get"), ns, mkeys).map(list), st.tuples(st.just("get"), ns, mkeys).map(list), adv,
-                              st.one_of(st.tuples(st.just("inv_ns"), st.sampled_from(["t1", "t2:semantic", "never"])).map(list),
-                                        st.just(["inv_all"]), adv, adv, adv))
+                              # (a nested one_of would be flattened into equal-weight branches: keep invalidations rare)
+                              st.sampled_from([["inv_all"], ["inv_ns", "t1"], ["inv_ns", "t2:semantic"], ["inv_ns", "never"]]
+                                              + [["adv", 1.5]] * 12))
     if family == "detlru":
         cfg = st.fixed_dictionaries({"cap": cap, "ug": st.booleans(), "up": st.booleans()})
         return cfg, st.one_of(st.tuples(st.just("put"), keys, vals).map(list), st.tuples(st.just("put"), keys, vals).map(list),
